@@ -14,6 +14,18 @@ inductive ItemRed where | all | any | none
 inductive TruthFlag where | ifAll | ifAny | none
   deriving DecidableEq, Repr
 
+/-- a test of `_compatible_arg` whose failure makes `==` answer False / `!=` answer True -/
+inductive CompatCheck where | units | item | broadcast
+  deriving DecidableEq, Repr
+
+/-- `compatCode` (the hand model the driver runs) in terms of the list of tests: every listed test must pass; the units
+    test always passes for the modelled operands (no units) -/
+def compatOf (cs : List CompatCheck) (itemS itemA : List Nat) (ss sa : Shape) : Bool :=
+  cs.all fun
+    | .units => true
+    | .item => itemS == itemA
+    | .broadcast => (bcast ss sa).isSome
+
 /-- what `__bool__` does: all() / any() of "non-zero and not masked" over the elements, or ValueError -/
 inductive BoolOut where | allNonzero | anyNonzero | raises
   deriving DecidableEq, Repr
